@@ -677,6 +677,18 @@ func c09Gen(tier string, seed uint64, out *bufio.Writer) {
 			k = 0
 		}
 		var cs []string
+		if i%3 == 1 {
+			// interacting corruptions: 2-3 corruptions of different classes aimed at ONE target chosen inside
+			// the state this history produced (c09_interact.go), now and then with unrelated ones around them
+			d, st := c09Prepare(h, nil)
+			d.close()
+			cs = c09FocusCorruptions(r, st)
+			if k > 3 {
+				k = 1
+			} else {
+				k = 0
+			}
+		}
 		for j := 0; j < k; j++ {
 			if r.chance(1, 3) {
 				cs = append(cs, pick(r, focus))
@@ -691,6 +703,7 @@ func c09Gen(tier string, seed uint64, out *bufio.Writer) {
 			c09EmitCase(out, "tx1r", h, cs)
 		}
 	}
+	c09GenInteracting(tier, r, out)
 	if tier == "thorough" {
 		fc := c09FixedCatalogue()
 		var rec func(start int, chosen []string)
